@@ -444,6 +444,29 @@ impl AMod {
         let c = self.customs.iter().find(|c| c.name == "name")?;
         Some(decode_names(&c.data, c.data_offset))
     }
+    /// all `name` sections, read the way walrus reads them (prefix before the first error), merged in order
+    pub fn names_lenient(&self) -> Option<ANames> {
+        let secs: Vec<&ACustom> = self.customs.iter().filter(|c| c.name == "name").collect();
+        if secs.is_empty() {
+            return None;
+        }
+        let mut acc = ANames::default();
+        for c in secs {
+            let n = decode_names_prefix(&c.data, c.data_offset);
+            if n.module.is_some() {
+                acc.module = n.module;
+            }
+            acc.funcs.extend(n.funcs);
+            acc.locals.extend(n.locals);
+            acc.types.extend(n.types);
+            acc.tables.extend(n.tables);
+            acc.memories.extend(n.memories);
+            acc.globals.extend(n.globals);
+            acc.elems.extend(n.elems);
+            acc.datas.extend(n.datas);
+        }
+        Some(acc)
+    }
     pub fn producers(&self) -> Option<Result<Vec<(String, Vec<(String, String)>)>>> {
         let c = self.customs.iter().find(|c| c.name == "producers")?;
         Some(decode_producers(&c.data, c.data_offset))
@@ -490,6 +513,60 @@ pub fn decode_producers(data: &[u8], off: usize) -> Result<Vec<(String, Vec<(Str
         out.push((f.name.to_string(), vals));
     }
     Ok(out)
+}
+
+/// what `parse_name_section` sees: every entry that decodes before the first error (walrus applies
+/// names one by one and stops, with a warning, at the first entry that fails to decode)
+pub fn decode_names_prefix(data: &[u8], off: usize) -> ANames {
+    let r = NameSectionReader::new(BinaryReader::new(data, off, all_features()));
+    let mut n = ANames::default();
+    fn map(m: NameMap, out: &mut Vec<(u32, String)>) -> bool {
+        for x in m {
+            match x {
+                Ok(x) => out.push((x.index, x.name.to_string())),
+                Err(_) => return false,
+            }
+        }
+        true
+    }
+    for sub in r {
+        let Ok(sub) = sub else { break };
+        let ok = match sub {
+            Name::Module { name, .. } => {
+                n.module = Some(name.to_string());
+                true
+            }
+            Name::Function(m) => map(m, &mut n.funcs),
+            Name::Local(l) => {
+                let mut ok = true;
+                for f in l {
+                    let Ok(f) = f else {
+                        ok = false;
+                        break;
+                    };
+                    let mut v = vec![];
+                    let fine = map(f.names, &mut v);
+                    n.locals.push((f.index, v));
+                    if !fine {
+                        ok = false;
+                        break;
+                    }
+                }
+                ok
+            }
+            Name::Type(m) => map(m, &mut n.types),
+            Name::Table(m) => map(m, &mut n.tables),
+            Name::Memory(m) => map(m, &mut n.memories),
+            Name::Global(m) => map(m, &mut n.globals),
+            Name::Element(m) => map(m, &mut n.elems),
+            Name::Data(m) => map(m, &mut n.datas),
+            _ => true,
+        };
+        if !ok {
+            break;
+        }
+    }
+    n
 }
 
 pub fn decode_names(data: &[u8], off: usize) -> Result<ANames> {
